@@ -107,7 +107,7 @@ class Solve(Function):
                 if ctx.needs_input_grad[2]:
                     right_grad = left_solves
                     if ctx.is_vector:
-                        right_grad.squeeze_(-1)
+                        right_grad = right_grad.squeeze(-1)
 
                 return tuple([None, None] + [right_grad] + list(arg_grads))
 
@@ -125,6 +125,6 @@ class Solve(Function):
                 if ctx.needs_input_grad[3]:
                     right_grad = left_solves
                     if ctx.is_vector:
-                        right_grad.squeeze_(-1)
+                        right_grad = right_grad.squeeze(-1)
 
                 return tuple([None, None] + [left_grad, right_grad] + list(arg_grads))
